@@ -433,6 +433,15 @@ def workflow(rep, N, hloc, Ls, p, lam, Sech, ana, seed):
 			for i in want_loc:
 				net_c.nodes_by_index[i].inventory_policy = pilot.nodes_by_index[i].inventory_policy
 			tot_c = simulation(net_c, 300, rand_seed=seed % 10 ** 6, progress_bar=False)
+			# the same penalty given as a stockout-cost FUNCTION of the ending inventory level (documented argument: IL, negative when backordered)
+			net_d = build()
+			for i, v in want_loc.items():
+				net_d.nodes_by_index[i].inventory_policy.base_stock_level = v
+			net_d.nodes_by_index[idx(1)].stockout_cost = 0
+			net_d.nodes_by_index[idx(1)].stockout_cost_function = (lambda pp: (lambda il: pp * max(0, -il)))(p)
+			tot_d = simulation(net_d, 300, rand_seed=seed % 10 ** 6, progress_bar=False)
+		if abs(tot_d - tot_b) > 1e-9 * max(1, abs(tot_b)):
+			out.append('stockout penalty given as the function IL -> p * max(0, -IL) gives total cost %r over 300 periods; given as the rate p it gives %r (same seed)' % (tot_d, tot_b))
 		if tot_c != tot_b:
 			out.append('policies moved from an already simulated pilot system onto a fresh copy give total cost %r over 300 periods; the same levels set on a fresh copy give %r (same seed)' % (tot_c, tot_b))
 		rep.count('serial:analysis-then-install-then-simulate')
